@@ -111,6 +111,7 @@ SCRIPTS = {
     "w2": [["write", "x", "X1"], ["write", "y", "Y1"]],
     "w3": [["write", "x", "X1"], ["write", "y", "Y1"], ["write", "x", "X2"]],
     "cz": [["create", "z", "Z1"], ["write", "x", "X1"]],
+    "xx": [["write", "x", "X1"], ["write", "x", "X2"]],     # a second notification must restart the ageing clock
 }
 BASE = [["create", "x", "x0"], ["create", "y", "y0"]]
 
